@@ -5,10 +5,10 @@
    the RIFF size field).  Part 1: locality for every format satisfying the obligations [laws]
    (proved once); part 2: the region reported by the handlers' get_object_locations_from_stream on a
    written asset is that region (PNG on bytes; JPEG and GIF on segments), it does not overlap the other
-   reported regions and lies in the file; part 3: the JPEG defect classes outside the hypotheses. *)
+   reported regions and lies in the file; part 3: the former F-JPEG-NOLEN witness after fix d67d17dcd. *)
 From Coq Require Import List NArith Bool Lia.
 From C2PA Require Import Base.Bytes Model.Container Model.ContPng Model.ContJpeg Model.ContGif Model.ContRiff Model.ContRun
-     Proofs.ContainerProofs Proofs.ContPngProofs Proofs.ContJpegProofs Proofs.ContGifProofs Generated.C07_facts.
+     Proofs.ContainerProofs Proofs.ContPngProofs Proofs.ContJpegProofs Proofs.ContJpegBytes Proofs.ContGifProofs Generated.C07_facts.
 Import ListNotations.
 
 Theorem c08_facts_agree :
@@ -56,18 +56,21 @@ Theorem c08_png_region :
     /\ ln = (12 + length b)%nat.
 Proof. exact png_locations_written. Qed.
 
-(* JPEG: the Cai region is [2 + goff, +glen), every other reported region lies before or after it;
-   hypothesis: the media segments in front of the manifest have a length field *)
+(* JPEG: the Cai region is [2 + goff, +glen) in bytes of the written file, every other reported region lies
+   before or after it; hypothesis [jseg_len_ok]: every media segment has a length field or is a bare marker,
+   which holds for every parsed JPEG ([c08_jpeg_valid_len_ok]) *)
 Theorem c08_jpeg_region :
   forall l b,
-    Forall jseg_ok (strip jpeg_format l) -> jadm b ->
-    Forall (fun s => has_length (jm s) = true) (firstn (ins jpeg_format l) (strip jpeg_format l)) ->
+    Forall jseg_ok (strip jpeg_format l) -> jadm b -> Forall jseg_len_ok (strip jpeg_format l) ->
     exists acc,
       jpeg_loc_segs (gwrite jpeg_format l b)
       = ROk (acc ++ [(N.of_nat (2 + goff jpeg_format l), N.of_nat (glen jpeg_format b), KCai)])
       /\ Forall (fun r => (fst (fst r) + snd (fst r) <= N.of_nat (2 + goff jpeg_format l)
                           \/ N.of_nat (2 + goff jpeg_format l + glen jpeg_format b) <= fst (fst r))%N) acc.
 Proof. exact jpeg_region_written. Qed.
+
+Theorem c08_jpeg_valid_len_ok : forall l, jwf l -> Forall jseg_len_ok (strip jpeg_format l).
+Proof. intros l H. exact (strip_len_ok l (jwf_len_ok l H)). Qed.
 
 (* GIF: [Other 0..off-1; Cai off..off+ln; Other rest] *)
 Theorem c08_gif_region :
@@ -78,15 +81,15 @@ Theorem c08_gif_region :
     = [(0%N, (off - 1)%N, KOther); (off, ln, KCai); ((off + ln)%N, (total - (off + ln))%N, KOther)].
 Proof. exact gif_loc_written. Qed.
 
-(* ---- 3. outside the hypotheses ---- *)
-(* F-JPEG-NOLEN: a parameterless marker in front of the manifest is encoded in 4 bytes but counted as 2:
-   the handler reports offset 13, the manifest starts at byte 15 of the written file *)
-Theorem c08_jpeg_nolen_refuted :
+(* ---- 3. the former F-JPEG-NOLEN witness ---- *)
+(* a parameterless marker (TEM) in front of the manifest: encoded in 4 bytes, and since fix d67d17dcd counted
+   as 4: the handler reports offset 15, where the manifest starts in the written file *)
+Theorem c08_jpeg_nolen_fixed :
   let w := gwrite jpeg_format nolen_asset nolen_store in
   jpeg_write_segs nolen_asset nolen_store = ROk w
-  /\ (exists acc, jpeg_loc_segs w = ROk (acc ++ [(13%N, 36%N, KCai)]))
+  /\ (exists acc, jpeg_loc_segs w = ROk (acc ++ [(15%N, 36%N, KCai)]))
   /\ (2 + goff jpeg_format nolen_asset = 15)%nat.
-Proof. exact jpeg_nolen_refuted. Qed.
+Proof. exact jpeg_nolen_fixed. Qed.
 
 (* the model computes a non-trivial case: two equal-length stores in a tiny JPEG differ only inside the region *)
 Example c08_example_jpeg :
